@@ -419,6 +419,27 @@ impl<'s, M: Matcher, S: Sink> Core<'s, M, S> {
                         pos = buf.len();
                         continue;
                     }
+                    // With CRLF line terminators, the confirmed match may be
+                    // an empty match between the `\r` and the `\n`, which is
+                    // not part of the line's content. So verify the match
+                    // against the line without its terminator, as the slow
+                    // path does.
+                    if self.config.line_term.is_crlf() {
+                        let slice = lines::without_terminator(
+                            &buf[line],
+                            self.config.line_term,
+                        );
+                        match self.matcher.is_match(slice) {
+                            Err(err) => {
+                                return Err(S::Error::error_message(err))
+                            }
+                            Ok(true) => return Ok(Some(line)),
+                            Ok(false) => {
+                                pos = line.end();
+                                continue;
+                            }
+                        }
+                    }
                     return Ok(Some(line));
                 }
                 Ok(Some(LineMatchKind::Candidate(i))) => {
